@@ -302,3 +302,187 @@ theorem hseg_of_partition (s : Seg ℝ) (py : ℝ) (crossings : List ℝ) (nL nR
     omega
 
 end C11B
+
+/-! ### the two rays partition the level crossings of a curved segment -/
+
+namespace C11B
+open Gen C05M Winding Inter
+variable {K : Type} [Field K] [LinearOrder K] [IsStrictOrderedRing K]
+
+/-- a level crossing at abscissa `xt` in clear position with respect to the two rays (far ends lx < rx, common near end px):
+    strictly between the far ends, not at px, and neither ray parameter inside a tolerance band of the range filter -/
+structure PClear (lx px rx xt : K) : Prop where
+  lo : lx < xt
+  hi : xt < rx
+  ne : xt ≠ px
+  bandL : ¬ (0 ≤ (xt - lx) / (px - lx) ∧ (xt - lx) / (px - lx) < (1 : K) / 5000000) ∧
+          ¬ (1 ≤ (xt - lx) / (px - lx) ∧ (xt - lx) / (px - lx) ≤ (5000001 : K) / 5000000)
+  bandR : ¬ (0 ≤ (xt - rx) / (px - rx) ∧ (xt - rx) / (px - rx) < (1 : K) / 5000000) ∧
+          ¬ (1 ≤ (xt - rx) / (px - rx) ∧ (xt - rx) / (px - rx) ≤ (5000001 : K) / 5000000)
+
+theorem within_iff (t : K) : within t = true ↔ (1 : K) / 5000000 ≤ t ∧ t ≤ (5000001 : K) / 5000000 := by
+  unfold within
+  simp only [Bool.and_eq_true, Bool.not_eq_true', decide_eq_false_iff_not, not_lt]
+
+/-- **exactly one of the two rays keeps the crossing** -/
+theorem one_ray (lx px rx xt : K) (hl : px ≠ lx) (hr : px ≠ rx) (hlr : lx < rx) (h : PClear lx px rx xt) :
+    (within ((xt - lx) / (px - lx)) = true ∧ within ((xt - rx) / (px - rx)) = false) ∨
+    (within ((xt - lx) / (px - lx)) = false ∧ within ((xt - rx) / (px - rx)) = true) := by
+  obtain ⟨lo, hi, ne, ⟨bL0, bL1⟩, ⟨bR0, bR1⟩⟩ := h
+  set TL := (xt - lx) / (px - lx) with hTL
+  set TR := (xt - rx) / (px - rx) with hTR
+  have wfalse : ∀ T : K, (T < 0 ∨ (5000001 : K) / 5000000 < T) → within T = false := by
+    intro T hT
+    rw [← Bool.not_eq_true, within_iff]
+    rintro ⟨h1, h2⟩
+    rcases hT with h | h
+    · have : (0 : K) < 1 / 5000000 := by norm_num
+      linarith
+    · linarith
+  have wtrue : ∀ T : K, 0 < T → T < 1 → ¬ (0 ≤ T ∧ T < (1 : K) / 5000000) → within T = true := by
+    intro T h0 h1 hb
+    rw [within_iff]
+    refine ⟨?_, ?_⟩
+    · by_contra hc; push Not at hc; exact hb ⟨le_of_lt h0, hc⟩
+    · have : (1 : K) < 5000001 / 5000000 := by norm_num
+      linarith
+  have big : ∀ T : K, 1 < T → ¬ (1 ≤ T ∧ T ≤ (5000001 : K) / 5000000) → (5000001 : K) / 5000000 < T := by
+    intro T h1 hb
+    by_contra hc; push Not at hc; exact hb ⟨le_of_lt h1, hc⟩
+  have hpl : px - lx ≠ 0 := sub_ne_zero.mpr hl
+  have hpr : px - rx ≠ 0 := sub_ne_zero.mpr hr
+  rcases lt_or_gt_of_ne hl with hpl' | hpl'
+  · -- px < lx: the left ray points away; the right ray spans lx .. rx and beyond
+    right
+    constructor
+    · apply wfalse; left
+      exact div_neg_of_pos_of_neg (by linarith) (by linarith)
+    · apply wtrue
+      · exact div_pos_of_neg_of_neg (by linarith) (by linarith)
+      · rw [div_lt_one_of_neg (by linarith)]; linarith
+      · exact bR0
+  · rcases lt_or_gt_of_ne hr with hpr' | hpr'
+    · -- lx < px < rx
+      rcases lt_or_gt_of_ne ne with hx | hx
+      · left
+        constructor
+        · apply wtrue
+          · exact div_pos (by linarith) (by linarith)
+          · rw [div_lt_one (by linarith)]; linarith
+          · exact bL0
+        · apply wfalse; right
+          apply big
+          · rw [lt_div_iff_of_neg (by linarith)]; linarith
+          · exact bR1
+      · right
+        constructor
+        · apply wfalse; right
+          apply big
+          · rw [lt_div_iff₀ (by linarith)]; linarith
+          · exact bL1
+        · apply wtrue
+          · exact div_pos_of_neg_of_neg (by linarith) (by linarith)
+          · rw [div_lt_one_of_neg (by linarith)]; linarith
+          · exact bR0
+    · -- rx < px: the right ray points away
+      left
+      constructor
+      · apply wtrue
+        · exact div_pos (by linarith) (by linarith)
+        · rw [div_lt_one (by linarith)]; linarith
+        · exact bL0
+      · apply wfalse; left
+        exact div_neg_of_neg_of_pos (by linarith) (by linarith)
+
+/-- the ray parameter of a point for a horizontal ray that is not degenerate -/
+theorem sworn_horizontal (x0 px py qx qy : K) (hne : ¬ isclose px x0 ((1 : K) / 1000000000) 0) :
+    tOfPointSworn (Seg.line ⟨x0, py⟩ ⟨px, py⟩) ⟨qx, qy⟩ = (qx - x0) / (px - x0) := by
+  simp only [tOfPointSworn, line_tOfPoint_sworn_v, line_tOfPoint_sworn, if_neg hne, List.headD_cons]
+
+/-- **the two rays together report every level crossing of a curved segment exactly once**: `ts` = the parameters the root finder
+    hands to both rays, each of them inside the range filter and in clear position -/
+theorem curve_partition (s : Seg K) (ts : List K) (lx px rx py : K)
+    (hl : ¬ isclose px lx ((1 : K) / 1000000000) 0) (hr : ¬ isclose px rx ((1 : K) / 1000000000) 0) (hlr : lx < rx)
+    (hts : ∀ t ∈ ts, within t = true ∧ PClear lx px rx (s.eval t).x) :
+    (curveLine ts s (Seg.line ⟨lx, py⟩ ⟨px, py⟩)).length + (curveLine ts s (Seg.line ⟨rx, py⟩ ⟨px, py⟩)).length = ts.length := by
+  have hpl : px ≠ lx := fun h => hl (by rw [h]; exact isclose_self _ _)
+  have hpr : px ≠ rx := fun h => hr (by rw [h]; exact isclose_self _ _)
+  unfold curveLine
+  induction ts with
+  | nil => simp
+  | cons t ts ih =>
+    have ih' := ih (fun t' ht' => hts t' (List.mem_cons_of_mem _ ht'))
+    obtain ⟨hw, hc⟩ := hts t (by simp)
+    simp only [List.map_cons, List.filter_cons]
+    rw [sworn_horizontal lx px py _ _ hl, sworn_horizontal rx px py _ _ hr]
+    rcases one_ray lx px rx _ hpl hpr hlr hc with ⟨h1, h2⟩ | ⟨h1, h2⟩
+    · simp only [hw, h1, h2, Bool.and_self, Bool.and_false, if_true, Bool.false_eq_true, if_false, List.length_cons]
+      omega
+    · simp only [hw, h1, h2, Bool.and_self, Bool.and_false, if_true, Bool.false_eq_true, if_false, List.length_cons]
+      omega
+
+end C11B
+
+namespace C11B
+open Gen C05M Winding Inter
+
+theorem segHits_curve (sqrt : ℝ → ℝ) (s : Seg ℝ) (hs : 2 < s.order) (x0 px py : ℝ) (aligned : Seg ℝ) (cardano : List ℝ) :
+    segHits sqrt s x0 px py aligned cardano = curveLine (curveLineT sqrt aligned cardano) s (Seg.line ⟨x0, py⟩ ⟨px, py⟩) := by
+  cases s with
+  | line a b => simp [Seg.order, Seg.points] at hs
+  | quad a b c => simp [segHits, intersections, Seg.order, Seg.points]
+  | cubic a b c d => simp [segHits, intersections, Seg.order, Seg.points]
+
+/-- **(Hseg) for a curved segment of the winding model.**  If the root finder hands both rays exactly the level crossings of the
+    segment (`crossings`: increasing, all of them, each simple — for cubics in the Cardano branch that is
+    `cubicRoots_cardano_sound` / `cubicRoots_cardano_complete`), and every crossing is inside the range filter and in clear position
+    with respect to the rays, then the two rays together report an odd number of crossings exactly when the segment's end points lie on
+    opposite sides of the level. -/
+theorem curve_hseg (s : Seg ℝ) (hs : 2 < s.order) (lx px rx py : ℝ) (alignedL alignedR : Seg ℝ) (cardL cardR crossings : List ℝ)
+    (hL : curveLineT Real.sqrt alignedL cardL = crossings) (hR : curveLineT Real.sqrt alignedR cardR = crossings)
+    (hl : ¬ isclose px lx ((1 : ℝ) / 1000000000) 0) (hr : ¬ isclose px rx ((1 : ℝ) / 1000000000) 0) (hlr : lx < rx)
+    (hsorted : crossings.Pairwise (· < ·)) (hin : ∀ t ∈ crossings, 0 < t ∧ t < 1)
+    (hall : ∀ t, 0 < t → t < 1 → ((s.eval t).y = py ↔ t ∈ crossings))
+    (hsimple : ∀ t ∈ crossings, (C02E.dcoeffs s).2.1 * t * t + (C02E.dcoeffs s).2.2.1 * t + (C02E.dcoeffs s).2.2.2 ≠ 0)
+    (h0 : s.start.y ≠ py) (h1 : s.end.y ≠ py)
+    (hclear : ∀ t ∈ crossings, within t = true ∧ PClear lx px rx (s.eval t).x) :
+    ((segHits Real.sqrt s lx px py alignedL cardL).length + (segHits Real.sqrt s rx px py alignedR cardR).length) % 2 =
+      if Straddle s.start.y s.end.y py then 1 else 0 := by
+  rw [segHits_curve _ s hs, segHits_curve _ s hs, hL, hR]
+  exact hseg_of_partition s py crossings _ _ hsorted hin hall hsimple h0 h1
+    (curve_partition s crossings lx px rx py hl hr hlr hclear)
+
+end C11B
+
+namespace C11B
+open Gen C05M Winding Inter
+variable {K : Type} [Field K] [LinearOrder K] [IsStrictOrderedRing K] [DecidableEq K]
+
+/-- **(Hseg) for a line segment**: an edge in clear position with respect to both rays whose crossing (if it straddles the level) lies
+    strictly between the rays' far ends is reported by exactly one ray if it straddles the level and by none otherwise -/
+theorem line_hseg (sqrt : K → K) (lx px rx py : K) (e : Edge K) (hcL : eClear lx px py e) (hcR : eClear rx px py e)
+    (hbox : eStraddle py e → lx < eX py e ∧ eX py e < rx) :
+    ((segHits sqrt (Seg.line e.1 e.2) lx px py (Seg.line e.1 e.2) []).length +
+     (segHits sqrt (Seg.line e.1 e.2) rx px py (Seg.line e.1 e.2) []).length) % 2 =
+      if Straddle e.1.y e.2.y py then 1 else 0 := by
+  rw [segHits_line sqrt lx px py e hcL, segHits_line sqrt rx px py e hcR]
+  have hL := hit_left lx px py e hcL (fun hs => (hbox hs).1)
+  have hR := hit_right rx px py e hcR (fun hs => (hbox hs).2)
+  by_cases hs : eStraddle py e
+  · have hs' : Straddle e.1.y e.2.y py := hs
+    rw [if_pos hs']
+    have hne := cross_ne_px lx px py e hcL hs
+    rcases lt_or_gt_of_ne hne with h | h
+    · have h1 : eHit lx px py e := hL.mpr ⟨hs, h⟩
+      have h2 : ¬ eHit rx px py e := fun hh => absurd (hR.mp hh).2 (not_lt.mpr (le_of_lt h))
+      simp only [h1, h2, if_true, if_false, List.length_singleton, List.length_nil]
+    · have h1 : ¬ eHit lx px py e := fun hh => absurd (hL.mp hh).2 (not_lt.mpr (le_of_lt h))
+      have h2 : eHit rx px py e := hR.mpr ⟨hs, h⟩
+      simp only [h1, h2, if_true, if_false, List.length_singleton, List.length_nil]
+  · have hs' : ¬ Straddle e.1.y e.2.y py := hs
+    rw [if_neg hs']
+    have h1 : ¬ eHit lx px py e := fun hh => hs (hL.mp hh).1
+    have h2 : ¬ eHit rx px py e := fun hh => hs (hR.mp hh).1
+    simp only [h1, h2, if_false, List.length_nil]
+
+end C11B
